@@ -10,6 +10,9 @@ import (
 type Clock struct {
 	Base  time.Time
 	Reads int
+	// Rate is the simulated time per scheduling step in nanoseconds (0 = 1000, i.e. 1 µs): a slow or
+	// fast machine. The code has no timers, so skew is the only thing a clock can do to it.
+	Rate int64
 }
 
 var (
@@ -41,7 +44,11 @@ func Now() time.Time {
 		return time.Now()
 	}
 	clock.Reads++
-	return clock.Base.Add(time.Duration(Steps()+int64(clock.Reads)) * time.Microsecond)
+	rate := clock.Rate
+	if rate <= 0 {
+		rate = 1000
+	}
+	return clock.Base.Add(time.Duration((Steps() + int64(clock.Reads)) * rate))
 }
 
 func Since(t time.Time) time.Duration { return Now().Sub(t) }
